@@ -60,19 +60,21 @@ class States:
             return frozenset(n for n, v in self.members.items() if lo <= v < hi)
         return None
 
-    def _cmp_val(self, c, var, val):
+    def _cmp_val(self, c, var, val, subject=None):
         """truth of a comparison chain / and / or / not over `var` (bound to the integer val) and state constants"""
         def num(e):
             if isinstance(e, ast.Name) and e.id == var:
                 return val
+            if subject is not None and self.is_state_expr(e) and src(e) == subject:
+                return val
             return self.int_of(e)
         if isinstance(c, ast.BoolOp):
-            vs = [self._cmp_val(x, var, val) for x in c.values]
+            vs = [self._cmp_val(x, var, val, subject) for x in c.values]
             if any(v is None for v in vs):
                 return None
             return all(vs) if isinstance(c.op, ast.And) else any(vs)
         if isinstance(c, ast.UnaryOp) and isinstance(c.op, ast.Not):
-            v = self._cmp_val(c.operand, var, val)
+            v = self._cmp_val(c.operand, var, val, subject)
             return None if v is None else not v
         if isinstance(c, ast.Compare):
             left = num(c.left)
@@ -116,6 +118,21 @@ class States:
 
     def eval_cond(self, expr):
         """(subject text, frozenset of states for which expr is true) or None"""
+        if isinstance(expr, ast.Compare) and len(expr.ops) > 1:
+            # A <= self.state < B: a chain over one state expression and state constants, decided member by member
+            operands = [expr.left] + list(expr.comparators)
+            subjects = {src(o) for o in operands if self.is_state_expr(o)}
+            if len(subjects) != 1:
+                return None
+            subj = subjects.pop()
+            out = set()
+            for name, val in self.members.items():
+                v = self._cmp_val(expr, None, val, subject=subj)
+                if v is None:
+                    return None
+                if v:
+                    out.add(name)
+            return subj, frozenset(out)
         if not (isinstance(expr, ast.Compare) and len(expr.ops) == 1):
             return None
         l, r, op = expr.left, expr.comparators[0], expr.ops[0]
